@@ -70,6 +70,49 @@ func genOverlap(rt *rapid.T, oo overlapOpts) *overlapCase {
 	if x.Build.Err != nil || x.Build.Panic != nil {
 		return c
 	}
+	// family mode (for A = Close): P -> C -> {G0..Gk}, instances in the grandchildren; A closes C, B closes P
+	if len(oo.AKinds) > 0 && oo.ExtraScopes > 0 && rapid.IntRange(0, 2).Draw(rt, "family") == 0 {
+		ids := identPool(x.M, false)
+		if len(ids) > 0 {
+			kinds := []int{0, 1, 2, 4}
+			x.exec(Op{Kind: "create", Scope: 0, Ctx: rapid.SampledFrom([]int{1, 2}).Draw(rt, "pctx")}) // s1 = P
+			x.exec(Op{Kind: "create", Scope: 1, Ctx: rapid.SampledFrom(kinds).Draw(rt, "cctx")})       // s2 = C
+			ng := rapid.IntRange(2, 4).Draw(rt, "grandchildren")
+			for g := 0; g < ng; g++ {
+				x.exec(Op{Kind: "create", Scope: 2, Ctx: rapid.SampledFrom(kinds).Draw(rt, "gctx")})
+				for k := rapid.IntRange(1, 3).Draw(rt, "gwarm"); k > 0; k-- {
+					x.exec(Op{Kind: "get", Scope: 3 + g, Ident: rapid.SampledFrom(ids).Draw(rt, "gid")})
+				}
+			}
+			if rec := x.R.Scopes[2]; rec != nil && rec.Created {
+				hasClose := false
+				for _, k := range oo.AKinds {
+					if k == "close" {
+						hasClose = true
+					}
+				}
+				if hasClose {
+					c.A = Op{Kind: "close", Scope: 2}
+					c.GateKind = kit.GateCloseEnter
+					c.GateN = rapid.SampledFrom([]int{1, 1, 2, 3}).Draw(rt, "fgaten")
+					switch rapid.IntRange(0, 3).Draw(rt, "fb") {
+					case 0:
+						c.B = Op{Kind: "pclose"}
+					case 1:
+						if x.R.Scopes[1].Cancel != nil {
+							c.B = Op{Kind: "cancel", Scope: 1}
+						} else {
+							c.B = Op{Kind: "close", Scope: 1}
+						}
+					default:
+						c.B = Op{Kind: "close", Scope: 1}
+					}
+					c.run()
+					return c
+				}
+			}
+		}
+	}
 	// a small scope tree
 	nsc := rapid.IntRange(1, 3+oo.ExtraScopes).Draw(rt, "nscopes")
 	for i := 0; i < nsc; i++ {
